@@ -39,6 +39,7 @@ type dtKnow struct {
 }
 
 type dtPath struct {
+	Locals  map[string]string // final values stored into local cells / fields of local literals
 	Assume  map[string]string // literal key -> "true"/"false"/"=const"/"!=c1,c2"
 	know    map[string]*dtKnow
 	Effects []dtEffect
@@ -90,9 +91,12 @@ func (s *dtState) clone() *dtState {
 	for k, v := range s.visited {
 		n.visited[k] = v
 	}
-	p := &dtPath{Assume: map[string]string{}, know: map[string]*dtKnow{}}
+	p := &dtPath{Assume: map[string]string{}, know: map[string]*dtKnow{}, Locals: map[string]string{}}
 	for k, v := range s.path.Assume {
 		p.Assume[k] = v
+	}
+	for k, v := range s.path.Locals {
+		p.Locals[k] = v
 	}
 	for k, v := range s.path.know {
 		kk := *v
@@ -112,7 +116,7 @@ func EnumeratePaths(c *Ctx, fn *ssa.Function, cfg *dtConfig) []*dtPath {
 	}
 	w := &dtWalker{c: c, fn: fn, cfg: cfg}
 	st := &dtState{env: map[ssa.Value]string{}, consts: map[ssa.Value]constant.Value{}, store: map[string]string{}, storeC: map[string]constant.Value{}, visited: map[*ssa.BasicBlock]bool{},
-		path: &dtPath{Assume: map[string]string{}, know: map[string]*dtKnow{}}}
+		path: &dtPath{Assume: map[string]string{}, know: map[string]*dtKnow{}, Locals: map[string]string{}}}
 	for k, v := range cfg.Preset {
 		vv := v
 		st.path.know[k] = &dtKnow{eq: &vv}
@@ -361,8 +365,10 @@ func (w *dtWalker) exec(st *dtState, in ssa.Instruction) {
 			delete(st.storeC, ak)
 			st.store[ak] = vk
 		}
-		if !strings.HasPrefix(ak, "local:") {
+		if !strings.HasPrefix(ak, "local:") && !strings.HasPrefix(ak, "&local:") {
 			st.path.Effects = append(st.path.Effects, dtEffect{Kind: "store", What: ak, Args: []string{vk}, Instr: in})
+		} else {
+			st.path.Locals[ak] = vk
 		}
 	case *ssa.Convert:
 		if cv, ok := w.constOfVal(st, x.X); ok {
@@ -384,6 +390,12 @@ func (w *dtWalker) exec(st *dtState, in ssa.Instruction) {
 			st.env[x] = k
 		}
 	case *ssa.Slice:
+		if x.Low == nil && x.High == nil {
+			if ks, ok := w.sliceElemKeys(st, x); ok {
+				st.env[x] = "{" + strings.Join(ks, ",") + "}"
+				return
+			}
+		}
 		k := w.keyOf(st, x.X)
 		if k == "" {
 			return
